@@ -578,7 +578,13 @@ func (w *rWorld) judgeDeadAndPrune(log []grocksdb.Rec) string {
 		}
 	}
 	// Oracle 2: prune at every version, with every crash point
-	for v := w.saved[0].ver; v <= cur.ver+1; v++ {
+	// prune versions: from the first saved version to one past the current one, and - when the history starts at
+	// version 1 or 2 - also version 0 (nothing lies below it: a prune that must remove nothing)
+	v0 := w.saved[0].ver
+	if v0 >= 1 && v0 <= 2 {
+		v0 = 0
+	}
+	for v := v0; v <= cur.ver+1; v++ {
 		allowed := map[string]bool{}
 		for _, s := range w.saved {
 			if s.ver < v {
